@@ -55,6 +55,10 @@ type Parser struct {
 	mergedScopes     uint32
 	relocatedObjects uint32
 
+	// The number of scopes merged plus objects relocated by the previous
+	// mergeScopeDirectives - relocateNamedObjects pass.
+	prevPassProgress uint32
+
 	mode parseMode
 }
 
@@ -122,6 +126,10 @@ func (p *Parser) ParseAML(tableHandle uint8, tableName string, header *table.SDT
 	// pass to fully resolve the scope directive.
 	p.resolvePasses = 1
 	for ; ; p.resolvePasses++ {
+		// A scope merged by the previous pass may have put the target of
+		// another directive in place just like a relocated object does.
+		p.prevPassProgress = p.mergedScopes + p.relocatedObjects
+
 		mergeRes := p.mergeScopeDirectives(0)
 		if mergeRes == parseResultFailed {
 			return errParsingAML
@@ -1171,10 +1179,11 @@ func (p *Parser) mergeScopeDirectives(objIndex uint32) parseResult {
 		targetIndex := p.objTree.Find(obj.parentIndex, targetName)
 
 		// If the lookup failed we may need to run a couple more mergeScopeDirectives /
-		// relocateNamedObjects passes to resolve things. If however no objects got
-		// relocated in the previous pass then report this as an error.
+		// relocateNamedObjects passes to resolve things. If however the previous
+		// pass neither merged a scope nor relocated an object then report this as
+		// an error.
 		if targetIndex == InvalidIndex {
-			if p.resolvePasses > 1 && p.relocatedObjects == 0 {
+			if p.resolvePasses > 1 && p.prevPassProgress == 0 {
 				kfmt.Fprintf(p.errWriter, "[table: %s, offset: 0x%x] unable to resolve reference to scope \"%s\"\n", p.tableName, obj.amlOffset, targetName)
 				return parseResultFailed
 			}
